@@ -6,7 +6,10 @@ cd /verif
 git -C /repo apply --check "$P" || { echo "PATCH DOES NOT APPLY: $P"; exit 3; }
 git -C /repo apply "$P"
 for id in "$@"; do
+  # the evidence file describes the unchanged tree: keep it aside while the patched tree is checked
+  cp -f "evidence/$id.json" "/tmp/evidence-$id.keep" 2>/dev/null
   out=$(./check "$id" quick 2>&1); rc=$?
+  [ -f "/tmp/evidence-$id.keep" ] && mv -f "/tmp/evidence-$id.keep" "evidence/$id.json"
   echo "== $id rc=$rc: $(echo "$out" | grep -E "^VIOLATION|quick:" | tail -2 | tr '\n' ' ' | cut -c1-300)"
   echo "$out" | grep -E "^\s+\[" | head -3 | cut -c1-400
 done
